@@ -22,10 +22,20 @@ RULE = ("conv: Hypothesis-drawn shapes (axes independent, 1..12 quick / 1..40 th
         "array and RichData input, oracle = explicit two-matrix DFT about n//2 (no FFT) normalised by sum(psf), DC = 1, "
         "max <= 1, MTF[c+k] = MTF[c-k], OTF[c+k] = conj OTF[c-k], OTF = MTF exp(i PTF).  Non-trivial = an odd or unequal "
         "axis is present (where a dropped / wrong-direction fftshift first shows), or a non-zero impulse offset, or a "
-        "callable / complex transfer function.")
+        "callable / complex transfer function.  Hardening dimensions drawn for every clause: dtype of each array handed over "
+        "(float64 / float32 / int64 / int32 / uint16 / uint8 / bool objects, PSFs and transfer-function arrays, mixed), memory layout "
+        "(C, Fortran, transposed view, strided view), amplitude scale (1e-300 .. 1e300 in float64, 1e-30 .. 1e30 in float32, pairs "
+        "whose product stays representable; PSF energies far below machine epsilon), impulse weights other than 1, the transfer "
+        "functions as list / tuple / 3-D ndarray, a prior call with other shape / dtype / shift / dx in the same process, every "
+        "argument compared with a copy taken before the call (bucket ...:argument-modified), the same call repeated (must return "
+        "the same image), kept results re-checked after later calls with other inputs and after editing a result in place "
+        "(...:result-overwritten / ...:aliased-state), positional and keyword forms.")
 ASSUMPTIONS = ["numpy.fft (pocketfft) and numpy.roll are correct", "objects, PSFs and transfer-function arrays have the same 2-D shape",
                "user-supplied frequency grids are given for both fx and fy, in the convention selected by `shift`",
-               "sum(psf) > 0 for the MTF clauses (entries >= 0, at least one >= 0.05)"]
+               "sum(psf) > 0 for the MTF clauses (entries >= 0, at least one >= 0.05 of the peak before scaling)",
+               "integer and boolean arrays are valid real objects / PSFs / transfer functions (the unchanged code promotes them to float64)",
+               "scaling a sound input by a power of ten inside the floating-point range keeps it sound (observed on the unchanged code: "
+               "conv and the OTF routines are accurate to round-off for amplitudes 1e-300 .. 1e300)"]
 
 NMAX = {'quick': 12, 'thorough': 40}
 
@@ -67,8 +77,49 @@ def _parity(shape):
     return ','.join('eo'[n % 2] if n > 1 else '1' for n in shape)
 
 
+# ---- input classes shared by the clauses: dtype, amplitude scale, memory layout --------------------------
+DTYPES = ['float64', 'bool', 'float64', 'uint8', 'float32', 'int64', 'float64', 'int32', 'uint16', 'float64']
+# decimal exponents (object, psf); every pair keeps products, sums over <= 1600 samples and the weights of the linearity
+# check inside the float64 range (float32 operands use a tenth of the exponent)
+SCALE_PAIRS = [[0, 0]] * 6 + [[-150, -150], [140, 140], [300, -300], [-300, 300], [-300, 0], [0, -300], [300, -5], [-200, -100],
+                              [100, 100], [-100, 40], [-17, 0], [0, -17]]
+
+
+def _to_dtype(x, dt, e=0):
+    """the float64 array x in [-1, 1] as a valid array of dtype dt: floats scaled by 10**e (10**(e/10) in float32),
+    signed integers = round(100 x), unsigned = round(200 |x|), bool = x > 0.2"""
+    dt = np.dtype(dt)
+    if dt.kind == 'f':
+        ee = e if dt == np.float64 else int(round(e / 10))
+        return (x * 10.0 ** ee).astype(dt)
+    if dt.kind == 'b':
+        return x > 0.2
+    if dt.kind == 'u':
+        return np.rint(np.abs(x) * 200).astype(dt)
+    return np.rint(x * 100).astype(dt)
+
+
+def _f64(a):
+    return np.asarray(a).astype(np.complex128 if np.iscomplexobj(a) else np.float64)
+
+
+def _is32(*dts):
+    return any(np.dtype(d) in (np.dtype('float32'), np.dtype('complex64')) for d in dts)
+
+
+def _unchanged(ctx, arr, keep, bucket, what):
+    """arr is the very array handed to the library, keep a copy taken before the call"""
+    a, k = np.asarray(arr), np.asarray(keep)
+    same = a.shape == k.shape and a.dtype == k.dtype and bool(np.all((a == k) | ((a != a) & (k != k))))
+    if not same:
+        n = int(np.sum(a != k)) if a.shape == k.shape else -1
+        ctx.fail(bucket + ':argument-modified', '%s was modified by the call (%d of %d samples differ, dtype %s -> %s)' % (what, n, k.size, k.dtype, a.dtype))
+
+
 # ---- conv ----------------------------------------------------------------------------------------
 WEIGHTS = [1.0, -1.0, 0.5, 2.0, -0.25, 3.0, 0.0, 1e-3, -7.5]
+IMPULSE_W = [1.0, 1.0, 0.5, 2.5, 1e-3, -0.75, 1e-200, 1e200]
+PRE = ['none', 'none', 'other-shape', 'float32', 'swapped', 'ints']
 
 
 def strat_conv(tier):
@@ -77,80 +128,147 @@ def strat_conv(tier):
         'k': st.tuples(st.integers(-s[0], s[0]), st.integers(-s[1], s[1])).map(list),
         'okind': st.sampled_from(['random', 'random', 'embedded', 'const', 'impulse']),
         'hkind': st.sampled_from(['random', 'random', 'embedded', 'impulse']),
-        'dtype': st.sampled_from(['float64', 'float64', 'float64', 'float32'])}))
+        'odtype': st.sampled_from(DTYPES), 'hdtype': st.sampled_from(DTYPES), 'scale': st.sampled_from(SCALE_PAIRS),
+        'olayout': U.layouts, 'hlayout': U.layouts, 'w': st.sampled_from(IMPULSE_W), 'pre': st.sampled_from(PRE),
+        'kwargs': st.booleans()}))
+
+
+def _prior_conv(ctx, conv, pre, shape, seed):
+    """history inside one process: some other valid use of conv before the checked calls"""
+    if pre == 'none':
+        return
+    ny, nx = shape
+    if pre == 'other-shape':
+        sh = (nx + 1, ny + 2)
+        ctx.call(conv, _real(seed, sh, 'random', 31), _real(seed, sh, 'random', 32))
+    elif pre == 'float32':
+        ctx.call(conv, _real(seed, shape, 'random', 31).astype(np.float32), _real(seed, shape, 'random', 32).astype(np.float32))
+    elif pre == 'swapped':
+        ctx.call(conv, _real(seed, shape, 'random', 3), _real(seed, shape, 'random', 1))
+    elif pre == 'ints':
+        ctx.call(conv, _to_dtype(_real(seed, shape, 'random', 31), 'uint8'), _to_dtype(_real(seed, shape, 'random', 32), 'int64'))
 
 
 def check_conv(case, ctx):
-    """conv == explicit circular convolution about n//2; bilinear, commutative, impulse identity / translation, energy product."""
+    """conv == explicit circular convolution about n//2; bilinear, commutative, impulse identity / translation, energy product;
+    for every dtype / layout / scale; arguments untouched; results independent of later calls."""
     from prysm.convolution import conv
     shape, seed, a, b, k = tuple(case['shape']), case['seed'], case['a'], case['b'], case['k']
-    dt = np.dtype(case['dtype'])
-    o1 = _real(seed, shape, case['okind'], 1).astype(dt)
-    o2 = _real(seed, shape, 'random', 2).astype(dt)
-    h1 = _real(seed, shape, case['hkind'], 3).astype(dt)
-    h2 = _real(seed, shape, 'random', 4).astype(dt)
-    rt = 1e-10 if dt == np.float64 else 2e-4
+    odt = np.dtype(case.get('odtype', case.get('dtype', 'float64')))
+    hdt = np.dtype(case.get('hdtype', case.get('dtype', 'float64')))
+    eo, eh = case.get('scale', [0, 0])
+    if odt.kind != 'f' or hdt.kind != 'f':
+        # an integer / boolean partner is not scaled (entries up to 200, sums up to 3e5): keep the spectra' product inside the float64 range
+        eo, eh = max(-280, min(280, eo)), max(-280, min(280, eh))
+    olay, hlay, w = case.get('olayout', 'C'), case.get('hlayout', 'C'), case.get('w', 1.0)
+    o1 = U.relayout(_to_dtype(_real(seed, shape, case['okind'], 1), odt, eo), olay)
+    o2 = _to_dtype(_real(seed, shape, 'random', 2), odt, eo)
+    h1 = U.relayout(_to_dtype(_real(seed, shape, case['hkind'], 3), hdt, eh), hlay)
+    h2 = _to_dtype(_real(seed, shape, 'random', 4), hdt, eh)
+    f32 = _is32(odt, hdt)
+    rt = 2e-4 if f32 else 1e-10
     ny, nx = shape
     ctx.nt(ny % 2 == 1 or nx % 2 == 1 or ny != nx or (k[0] % ny, k[1] % nx) != (0, 0))
-    ctx.label('parity:' + _parity(shape), 'square' if ny == nx else 'nonsquare', 'dtype:' + case['dtype'], 'o:' + case['okind'], 'h:' + case['hkind'])
-    o64, o264, h64, h264 = (x.astype(np.float64) for x in (o1, o2, h1, h2))
+    ctx.label('parity:' + _parity(shape), 'square' if ny == nx else 'nonsquare', 'odtype:%s' % odt, 'hdtype:%s' % hdt, 'o:' + case['okind'],
+              'h:' + case['hkind'], 'olayout:' + olay, 'hlayout:' + hlay, 'scale:%s' % ('unit' if (eo, eh) == (0, 0) else 'extreme'),
+              'w=1' if w == 1.0 else 'w!=1', 'pre:' + case.get('pre', 'none'), 'mixed-dtype' if odt != hdt else 'same-dtype')
+    o64, o264, h64, h264 = (_f64(x) for x in (o1, o2, h1, h2))
     scale = float(np.sum(np.abs(h64)) * np.max(np.abs(o64))) + 1e-300
-    desc = 'shape %s seed %d' % (list(shape), seed)
+    desc = 'shape %s seed %d dtypes (%s, %s) layouts (%s, %s) scale 1e%d,1e%d' % (list(shape), seed, odt, hdt, olay, hlay, eo, eh)
     pb = 'conv:%s' % _parity(shape)
+    tb = ':' + '/'.join(sorted({str(odt), str(hdt)})) if (odt.kind != 'f' or hdt.kind != 'f') else ''
+    _prior_conv(ctx, conv, case.get('pre', 'none'), shape, seed)
+    raw = []
 
-    def cv(x, y):
-        r = np.asarray(ctx.call(conv, x, y))
+    def cv(x, y, kw=False):
+        r = ctx.call(conv, obj=x, psf=y) if kw else ctx.call(conv, x, y)
+        raw.append(r)
+        r = np.asarray(r)
         U.check_shape(r, shape, 'conv', 'conv output')
         ctx.require(r.dtype.kind == 'f', 'conv:dtype', 'conv of real arrays returned dtype %s' % r.dtype)
         return r.astype(np.float64)
-    c11 = cv(o1, h1)
-    U.check_close(c11, direct_conv(o64, h64), rt, pb + ':direct', '%s: conv vs explicit circular sum about n//2' % desc, atol=rt * scale)
-    U.check_close(cv(h1, o1), c11, rt, pb + ':commutative', '%s: conv(h,o) vs conv(o,h)' % desc, atol=rt * scale)
-    # linearity in each argument (the combination itself is formed in float64 and cast, so that both sides see the same input)
-    mix_o = (a * o64 + b * o264).astype(dt)
+    ko, kh = o1.copy(), h1.copy()
+    c11 = cv(o1, h1, case.get('kwargs', False))
+    first, first_keep = raw[0], np.array(raw[0], copy=True)
+    _unchanged(ctx, o1, ko, 'conv', 'the object')
+    _unchanged(ctx, h1, kh, 'conv', 'the psf')
+    U.check_close(c11, direct_conv(o64, h64), rt, pb + ':direct' + tb, '%s: conv vs explicit circular sum about n//2' % desc, atol=rt * scale)
+    U.check_close(cv(h1, o1), c11, rt, pb + ':commutative' + tb, '%s: conv(h,o) vs conv(o,h)' % desc, atol=rt * scale)
+    # linearity in each argument (the combination itself is formed in float64 and cast, so that both sides see the same input;
+    # combinations of integer / boolean arrays are handed over in float64)
+    mix_o = (a * o64 + b * o264).astype(odt if odt.kind == 'f' else np.float64)
     s2 = float(np.sum(np.abs(h64)) * (abs(a) * np.max(np.abs(o64)) + abs(b) * np.max(np.abs(o264)))) + 1e-300
-    U.check_close(cv(mix_o, h1), a * c11 + b * cv(o2, h1), rt, pb + ':linear-object', '%s: conv(%r o1 + %r o2, h)' % (desc, a, b), atol=rt * s2 * 4)
-    mix_h = (a * h64 + b * h264).astype(dt)
+    U.check_close(cv(mix_o, h1), a * c11 + b * cv(o2, h1), rt, pb + ':linear-object' + tb, '%s: conv(%r o1 + %r o2, h)' % (desc, a, b), atol=rt * s2 * 4)
+    mix_h = (a * h64 + b * h264).astype(hdt if hdt.kind == 'f' else np.float64)
     s3 = float(np.max(np.abs(o64)) * (abs(a) * np.sum(np.abs(h64)) + abs(b) * np.sum(np.abs(h264)))) + 1e-300
-    U.check_close(cv(o1, mix_h), a * c11 + b * cv(o1, h2), rt, pb + ':linear-psf', '%s: conv(o, %r h1 + %r h2)' % (desc, a, b), atol=rt * s3 * 4)
-    # impulse at the origin / displaced
-    d0 = np.zeros(shape, dt)
+    U.check_close(cv(o1, mix_h), a * c11 + b * cv(o1, h2), rt, pb + ':linear-psf' + tb, '%s: conv(o, %r h1 + %r h2)' % (desc, a, b), atol=rt * s3 * 4)
+    # impulse at the origin / displaced; a unit impulse in the psf's own dtype, and (homogeneity) an impulse of weight w
+    omax = float(np.max(np.abs(o64)))
+    d0 = np.zeros(shape, hdt)
     d0[ny // 2, nx // 2] = 1
-    U.check_close(cv(o1, d0), o64, rt, pb + ':identity', '%s: conv(o, delta at n//2) vs o' % desc, atol=rt * np.max(np.abs(o64)))
-    dk = np.zeros(shape, dt)
-    dk[(ny // 2 + k[0]) % ny, (nx // 2 + k[1]) % nx] = 1
-    U.check_close(cv(o1, dk), np.roll(o64, (k[0], k[1]), axis=(0, 1)), rt, pb + ':translation',
-                  '%s: conv(o, delta at n//2 + %r) vs roll(o, %r)' % (desc, k, k), atol=rt * np.max(np.abs(o64)))
+    U.check_close(cv(o1, d0), o64, rt, pb + ':identity' + tb, '%s: conv(o, delta at n//2) vs o' % desc, atol=rt * omax)
+    wdt = hdt if hdt.kind == 'f' else np.dtype(np.float64)
+    if wdt == np.float32 and not 1e-30 <= abs(w) <= 1e30:
+        w = 0.5
+    if abs(w) * omax > 1e300 or (abs(w) * omax < 1e-300 and omax > 0):
+        w = 0.5    # keep the product representable
+    dk = U.relayout(np.zeros(shape, wdt), hlay)
+    dk[(ny // 2 + k[0]) % ny, (nx // 2 + k[1]) % nx] = w
+    wv = float(dk[(ny // 2 + k[0]) % ny, (nx // 2 + k[1]) % nx])
+    U.check_close(cv(o1, dk), wv * np.roll(o64, (k[0], k[1]), axis=(0, 1)), rt, pb + ':translation' + tb,
+                  '%s: conv(o, %r delta at n//2 + %r) vs %r roll(o, %r)' % (desc, wv, k, wv, k), atol=rt * omax * abs(wv))
+    U.check_close(cv(dk, o1), wv * np.roll(o64, (k[0], k[1]), axis=(0, 1)), rt, pb + ':translation' + tb,
+                  '%s: conv(%r delta at n//2 + %r, o) vs %r roll(o, %r)' % (desc, wv, k, wv, k), atol=rt * omax * abs(wv))
     # energy
     e = float(np.sum(c11))
     want = float(np.sum(o64) * np.sum(h64))
     es = float(np.sum(np.abs(o64)) * np.sum(np.abs(h64))) + 1e-300
-    ctx.require(abs(e - want) <= rt * es, pb + ':energy', '%s: sum(conv)=%.17g, sum(o) sum(h)=%.17g' % (desc, e, want))
+    ctx.require(abs(e - want) <= rt * es, pb + ':energy' + tb, '%s: sum(conv)=%.17g, sum(o) sum(h)=%.17g' % (desc, e, want))
+    # the caller owns what it handed over and what it got back
+    _unchanged(ctx, o1, ko, 'conv', 'the object')
+    _unchanged(ctx, h1, kh, 'conv', 'the psf')
+    U.check_equal(np.asarray(first), first_keep, 'conv:result-overwritten', '%s: the first result changed during later calls' % desc)
+    try:
+        np.asarray(first)[...] = 0
+    except ValueError:
+        pass
+    again = np.asarray(ctx.call(conv, o1, h1))
+    U.check_close(again, first_keep, 1e-12, 'conv:aliased-state', '%s: same call after the first result was zeroed in place' % desc, atol=1e-13 * scale)
+
+
+IMP_DT = ['float64', 'int64', 'uint8', 'float32', 'bool', 'float64', 'uint16']
 
 
 def enum_impulse(tier):
     N = {'quick': 9, 'thorough': 14}[tier]
     for ny in range(1, N + 1):
         for nx in range(1, N + 1):
-            yield {'shape': [ny, nx], 'seed': 1000 * ny + nx}
+            yield {'shape': [ny, nx], 'seed': 1000 * ny + nx, 'odtype': IMP_DT[(3 * ny + nx) % len(IMP_DT)], 'w': [1.0, 0.5, 1.0, 3.0][(ny + 2 * nx) % 4]}
 
 
 def check_impulse(case, ctx):
-    """every impulse position p of the shape: conv(o, delta_p) == conv(delta_p, o) == roll(o, p - n//2)."""
+    """every impulse position p of the shape: conv(o, w delta_p) == conv(w delta_p, o) == w roll(o, p - n//2)."""
     from prysm.convolution import conv
     ny, nx = case['shape']
-    o = _real(case['seed'], (ny, nx), 'random', 1)
+    odt, w = np.dtype(case.get('odtype', 'float64')), case.get('w', 1.0)
+    o = _to_dtype(_real(case['seed'], (ny, nx), 'random', 1), odt)
+    o64 = _f64(o)
+    keep = o.copy()
+    rt = 1e-5 if odt == np.float32 else 1e-12
     ctx.nt(ny % 2 == 1 or nx % 2 == 1 or ny != nx)
-    ctx.label('parity:' + _parity((ny, nx)))
+    ctx.label('parity:' + _parity((ny, nx)), 'odtype:%s' % odt, 'w=1' if w == 1.0 else 'w!=1')
     ctx.tally('impulse_positions', ny * nx)
     pb = 'conv:%s' % _parity((ny, nx))
+    tb = '' if odt.kind == 'f' else ':%s' % odt
+    sc = float(np.max(np.abs(o64))) * abs(w)
     for y in range(ny):
         for x in range(nx):
             d = np.zeros((ny, nx))
-            d[y, x] = 1
-            want = np.roll(o, (y - ny // 2, x - nx // 2), axis=(0, 1))
-            U.check_close(ctx.call(conv, o, d), want, 1e-12, pb + ':translation', 'shape %s impulse at %s (psf side)' % ([ny, nx], [y, x]), atol=1e-13)
-            U.check_close(ctx.call(conv, d, o), want, 1e-12, pb + ':translation', 'shape %s impulse at %s (object side)' % ([ny, nx], [y, x]), atol=1e-13)
+            d[y, x] = w
+            want = w * np.roll(o64, (y - ny // 2, x - nx // 2), axis=(0, 1))
+            U.check_close(ctx.call(conv, o, d), want, rt, pb + ':translation' + tb, 'shape %s %s object, impulse %r at %s (psf side)' % ([ny, nx], odt, w, [y, x]), atol=rt * sc + 1e-13)
+            U.check_close(ctx.call(conv, d, o), want, rt, pb + ':translation' + tb, 'shape %s %s object, impulse %r at %s (object side)' % ([ny, nx], odt, w, [y, x]), atol=rt * sc + 1e-13)
+    _unchanged(ctx, o, keep, 'conv', 'the object')
 
 
 # ---- apply_transfer_functions ----------------------------------------------------------------------
@@ -170,10 +288,11 @@ def _tf_spec():
         st.fixed_dictionaries({'kind': st.just('fx_only'), 's': pos}),
         st.fixed_dictionaries({'kind': st.just('fy_only'), 's': pos}),
         st.fixed_dictionaries({'kind': st.just('all4'), 's': pos}),
+        st.fixed_dictionaries({'kind': st.just('stored'), 'salt': st.integers(0, 50)}),
     )
 
 
-CALLABLE_KINDS = {'ones_callable', 'gauss_fr', 'sinc_fxfy', 'smear', 'jitter', 'ft_cos', 'ramp', 'fx_only', 'fy_only', 'all4'}
+CALLABLE_KINDS = {'stored', 'ones_callable', 'gauss_fr', 'sinc_fxfy', 'smear', 'jitter', 'ft_cos', 'ramp', 'fx_only', 'fy_only', 'all4'}
 
 
 def _tf_value(spec, fx, fy, fr, ft):
@@ -227,19 +346,54 @@ def _tf_callable(spec):
     raise ValueError(k)
 
 
+TF_DX = [1.0, 0.5, 0.1, 2.5, 1.0, 0.5, 1e-4, 3e3]
+TF_OSCALE = [0, 0, 0, 0, 0, -300, -200, 200, 300, -17]
+ARRAY_KINDS = {'array_real': 'float64', 'array_complex': 'complex128', 'array_f32': 'float32', 'array_c64': 'complex64', 'array_int': 'int64',
+               'array_mask': 'bool', 'array_u8': 'uint8'}
+
+
 def strat_tf(tier):
+    arr_extra = st.one_of(*[st.fixed_dictionaries({'kind': st.just(k), 'salt': st.integers(0, 50), 'layout': U.layouts}) for k in sorted(ARRAY_KINDS)])
+    spec = st.one_of(_tf_spec(), _tf_spec(), arr_extra)
     return st.fixed_dictionaries({
-        'shape': _shape(tier), 'seed': U.seeds, 'shift': st.booleans(), 'tfs': st.lists(_tf_spec(), min_size=1, max_size=4),
-        'grids': st.sampled_from(['library', 'library', 'user1d', 'user2d']), 'dx': st.sampled_from([1.0, 0.5, 0.1, 2.5]),
-        'okind': st.sampled_from(['random', 'random', 'embedded', 'impulse'])})
+        'shape': _shape(tier), 'seed': U.seeds, 'shift': st.booleans(), 'tfs': st.lists(spec, min_size=1, max_size=4),
+        'grids': st.sampled_from(['library', 'library', 'user1d', 'user2d']), 'dx': st.sampled_from(TF_DX),
+        'okind': st.sampled_from(['random', 'random', 'embedded', 'impulse']),
+        'odtype': st.sampled_from(DTYPES), 'olayout': U.layouts, 'oscale': st.sampled_from(TF_OSCALE), 'glayout': U.layouts,
+        'container': st.sampled_from(['list', 'list', 'tuple', 'ndarray']), 'pre': st.sampled_from(['none', 'none', 'other-shift', 'other-dx', 'other-shape', 'float32'])})
+
+
+def _tf_array(spec, seed, shape):
+    """an array-valued transfer function of the spec's dtype (values exactly representable, so the float64 oracle sees the same numbers)"""
+    k = spec['kind']
+    if k == 'ones':
+        return np.ones(shape)
+    dt = np.dtype(ARRAY_KINDS[k])
+    r = U.rng_of(seed, (200 if dt.kind == 'c' else 100) + spec['salt'])
+    if dt.kind == 'c':
+        v = (r.uniform(-1, 1, shape) + 1j * r.uniform(-1, 1, shape)).astype(dt)
+    elif dt.kind == 'f':
+        v = r.uniform(-1, 1, shape).astype(dt)
+    elif dt.kind == 'b':
+        v = r.uniform(0, 1, shape) < 0.7
+    elif dt.kind == 'u':
+        v = r.integers(0, 4, shape).astype(dt)
+    else:
+        v = r.integers(-3, 4, shape).astype(dt)
+    return U.relayout(v, spec.get('layout', 'C'))
 
 
 def check_tf(case, ctx):
-    """apply_transfer_functions == ifft2(fft2(o) * prod(tfs on the convention's grid)); list == product; all-ones == identity."""
+    """apply_transfer_functions == ifft2(fft2(o) * prod(tfs on the convention's grid)); list == product; all-ones == identity;
+    the call is repeatable, leaves every argument alone and does not touch earlier results."""
     from prysm.convolution import apply_transfer_functions as atf
     shape, seed, shift, specs, grids, dx = tuple(case['shape']), case['seed'], case['shift'], case['tfs'], case['grids'], case['dx']
     ny, nx = shape
-    o = _real(seed, shape, case['okind'], 1)
+    odt, olay, eo = np.dtype(case.get('odtype', 'float64')), case.get('olayout', 'C'), case.get('oscale', 0)
+    container, pre, glay = case.get('container', 'list'), case.get('pre', 'none'), case.get('glayout', 'C')
+    o_in = U.relayout(_to_dtype(_real(seed, shape, case['okind'], 1), odt, eo), olay)
+    o = _f64(o_in)
+    rt = 2e-4 if odt == np.float32 else 1e-10
     # frequency grids of the convention under test, from numpy only
     fy1, fx1 = np.fft.fftfreq(ny, dx), np.fft.fftfreq(nx, dx)
     if shift:
@@ -247,54 +401,102 @@ def check_tf(case, ctx):
     FX, FY = np.meshgrid(fx1, fy1)
     FR, FT = np.hypot(FX, FY), np.arctan2(FY, FX)
     has_callable = any(s['kind'] in CALLABLE_KINDS for s in specs)
-    has_complex = any(s['kind'] in ('array_complex', 'ramp', 'all4') for s in specs)
+    has_complex = any(s['kind'] in ('array_complex', 'array_c64', 'ramp', 'all4') for s in specs)
     if not has_callable:
         grids = 'library'   # frequency grids are irrelevant for arrays
+    elif container == 'ndarray':
+        container = 'list'  # callables cannot be stacked
     vals, tfs = [], []
+    stored = []
     for i, s in enumerate(specs):
-        if s['kind'] == 'array_real':
-            v = U.rng_of(seed, 100 + s['salt']).uniform(-1, 1, shape)
-        elif s['kind'] == 'array_complex':
-            r = U.rng_of(seed, 200 + s['salt'])
-            v = r.uniform(-1, 1, shape) + 1j * r.uniform(-1, 1, shape)
-        elif s['kind'] == 'ones':
-            v = np.ones(shape)
-        else:
-            v = np.broadcast_to(_tf_value(s, FX, FY, FR, FT), shape)
+        if s['kind'] == 'stored':
+            # a callable that hands back an array it keeps (a precomputed OTF): that array is the caller's as well
+            v = U.rng_of(seed, 300 + s['salt']).uniform(-1, 1, shape)
+            stored.append((v, v.copy()))
+            vals.append(v.copy())
+            tfs.append(lambda fr, _v=v: _v)
+        elif s['kind'] in CALLABLE_KINDS:
+            vals.append(np.broadcast_to(_tf_value(s, FX, FY, FR, FT), shape))
             tfs.append(_tf_callable(s))
-            vals.append(v)
-            continue
-        vals.append(v)
-        tfs.append(v.copy())
+        else:
+            v = _tf_array(s, seed, shape)
+            vals.append(_f64(v))
+            tfs.append(v)
+    keeps = [None if callable(t) else t.copy() for t in tfs]
+    handed = list(tfs)
+    if container == 'tuple':
+        tfs = tuple(tfs)
+    elif container == 'ndarray':
+        tfs = np.array([np.asarray(t) for t in tfs])
+        keeps = [tfs.copy()]
+        handed = [tfs]
     T = functools.reduce(lambda p, q: p * q, vals)
     T0 = np.fft.ifftshift(T) if shift else T
     want = np.fft.ifft2(np.fft.fft2(o) * T0).real
     kw = {'shift': shift}
+    gkeep = {}
     if grids == 'user1d':
         kw.update(fx=fx1.copy(), fy=fy1.copy())
     elif grids == 'user2d':
-        kw.update(fx=FX.copy(), fy=FY.copy())
+        kw.update(fx=U.relayout(FX, glay), fy=U.relayout(FY, glay))
+    for g in ('fx', 'fy'):
+        if g in kw:
+            gkeep[g] = kw[g].copy()
     dx_arg = dx if grids == 'library' else None
     conv_name = 'shifted' if shift else 'unshifted'
     ctx.nt(has_callable or has_complex or ny % 2 == 1 or nx % 2 == 1 or ny != nx)
     ctx.label('conv:' + conv_name, 'grids:' + grids, 'ntf=%d' % len(specs), 'callable' if has_callable else 'arrays-only',
-              'complex' if has_complex else 'real-tf', 'parity:' + _parity(shape), *sorted(set('tf:' + s['kind'] for s in specs)))
+              'complex' if has_complex else 'real-tf', 'parity:' + _parity(shape), 'odtype:%s' % odt, 'olayout:' + olay, 'container:' + container,
+              'oscale:%s' % ('unit' if eo == 0 else 'extreme'), 'pre:' + pre, 'first:' + ('callable' if callable(handed[0]) else 'array'),
+              *sorted(set('tf:' + s['kind'] for s in specs)))
     scale = float(np.max(np.abs(o)) * np.max(np.abs(T0))) + 1e-300
-    desc = 'shape %s shift=%s grids=%s dx=%r tfs=%r' % (list(shape), shift, grids, dx, specs)
+    desc = 'shape %s shift=%s grids=%s dx=%r %s object (%s, 1e%d) %s of tfs=%r' % (list(shape), shift, grids, dx, odt, olay, eo, container, specs)
     bucket = 'apply_tf:%s:%s' % (conv_name, 'user2d-grids' if grids == 'user2d' else ('callable' if has_callable else 'array'))
-    got = np.asarray(ctx.call(atf, o.copy(), dx_arg, tfs, **kw))
+    tb = '' if odt.kind == 'f' else ':%s-object' % odt
+    # history inside one process: another valid call first (other convention / spacing / shape / precision)
+    if pre != 'none':
+        psh = (nx + 1, ny + 2) if pre == 'other-shape' else shape
+        po = _real(seed, psh, 'random', 41).astype(np.float32 if pre == 'float32' else np.float64)
+        ctx.call(atf, po, dx * 3 if pre == 'other-dx' else dx, [lambda fx, fy, fr, ft: 1 / (1 + fr + 0 * fx + 0 * fy + 0 * ft)],
+                 shift=(not shift) if pre == 'other-shift' else shift)
+    okeep = o_in.copy()
+    got_raw = ctx.call(atf, o_in, dx_arg, tfs, **kw)
+    got = np.asarray(got_raw)
+    got_keep = np.array(got, copy=True)
     U.check_shape(got, shape, bucket, desc)
     ctx.require(got.dtype.kind == 'f', bucket + ':dtype', 'returned dtype %s' % got.dtype)
-    U.check_close(got, want, 1e-10, bucket + ':oracle', '%s: vs ifft2(fft2(o) * prod T)' % desc, atol=1e-11 * scale)
+
+    def args_untouched(when):
+        _unchanged(ctx, o_in, okeep, 'apply_tf', 'the object (%s)' % when)
+        for i, (t, k) in enumerate(zip(handed, keeps)):
+            if k is not None:
+                _unchanged(ctx, t, k, 'apply_tf', 'transfer function %d of %d (%s; %s)' % (i, len(handed), when, desc))
+        for g in gkeep:
+            _unchanged(ctx, kw[g], gkeep[g], 'apply_tf', 'the user grid %s (%s)' % (g, when))
+        for v, k in stored:
+            _unchanged(ctx, v, k, 'apply_tf', 'the array returned by a callable transfer function (%s; %s)' % (when, desc))
+        if container != 'ndarray':
+            ctx.require(len(tfs) == len(handed) and all(p is q for p, q in zip(tfs, handed)), 'apply_tf:argument-modified',
+                        'the sequence of transfer functions itself was changed (%s)' % when)
+    args_untouched('after the first call')
+    U.check_close(got, want, rt, bucket + ':oracle' + tb, '%s: vs ifft2(fft2(o) * prod T)' % desc, atol=rt * 0.1 * scale)
+    # the same call again is the same image (the operator is a function of its arguments)
+    twice = np.asarray(ctx.call(atf, o_in, dx_arg, tfs, **kw))
+    U.check_close(twice, got_keep, 1e-12, 'apply_tf:%s:not-repeatable' % conv_name, '%s: second identical call differs from the first' % desc, atol=1e-13 * scale)
     # list == product (metamorphic, same convention)
     if len(specs) > 1:
-        one = np.asarray(ctx.call(atf, o.copy(), dx_arg, [T.copy()], shift=shift))
-        U.check_close(got, one, 1e-10, 'apply_tf:%s:list-vs-product' % conv_name, '%s: list of %d vs their product' % (desc, len(specs)), atol=1e-11 * scale)
-    # all-ones transfer function is the identity, as an array and as a callable
-    ident = np.asarray(ctx.call(atf, o.copy(), dx_arg, [np.ones(shape)], shift=shift))
-    U.check_close(ident, o, 1e-12, 'apply_tf:%s:ones-identity' % conv_name, 'shape %s shift=%s: all-ones array' % (list(shape), shift), atol=1e-13)
-    ident = np.asarray(ctx.call(atf, o.copy(), dx, [lambda fx, fy: np.ones(np.broadcast_shapes(np.shape(fx), np.shape(fy)))], shift=shift))
-    U.check_close(ident, o, 1e-12, 'apply_tf:%s:ones-identity' % conv_name, 'shape %s shift=%s: all-ones callable' % (list(shape), shift), atol=1e-13)
+        one = np.asarray(ctx.call(atf, o_in, dx_arg, [T.copy()], shift=shift))
+        U.check_close(got, one, rt, 'apply_tf:%s:list-vs-product' % conv_name, '%s: list of %d vs their product' % (desc, len(specs)), atol=rt * 0.1 * scale)
+    # all-ones transfer function is the identity, as an array (of any dtype) and as a callable
+    rti = 1e-5 if odt == np.float32 else 1e-12
+    osc = float(np.max(np.abs(o)))
+    for name, ones in (('float', np.ones(shape)), ('int', np.ones(shape, np.int64)), ('bool', np.ones(shape, bool))):
+        ident = np.asarray(ctx.call(atf, o_in, dx_arg, [ones], shift=shift))
+        U.check_close(ident, o, rti, 'apply_tf:%s:ones-identity' % conv_name, 'shape %s shift=%s %s object: all-ones %s array' % (list(shape), shift, odt, name), atol=rti * 0.1 * osc)
+    ident = np.asarray(ctx.call(atf, o_in, dx, [lambda fx, fy: np.ones(np.broadcast_shapes(np.shape(fx), np.shape(fy)))], shift=shift))
+    U.check_close(ident, o, rti, 'apply_tf:%s:ones-identity' % conv_name, 'shape %s shift=%s %s object: all-ones callable' % (list(shape), shift, odt), atol=rti * 0.1 * osc)
+    args_untouched('at the end')
+    U.check_equal(np.asarray(got_raw), got_keep, 'apply_tf:result-overwritten', '%s: the first result changed during later calls' % desc)
 
 
 # ---- MTF / PTF / OTF ---------------------------------------------------------------------------------
@@ -329,11 +531,19 @@ def _psf(case):
     return np.ascontiguousarray(p, dtype=np.float64), (oy, ox)
 
 
+MTF_DT = ['float64', 'bool', 'float32', 'int64', 'float64', 'uint16', 'float32', 'uint8', 'float64', 'float64']
+# decimal exponent of the PSF's amplitude: total energies from 1e-300 to 1e300, in particular far below the machine epsilon of the dtype
+MTF_SCALE64 = [0, 0, 0, -300, -250, -100, -30, -17, -10, -5, 5, 100, 300]
+MTF_SCALE32 = [0, 0, -30, -20, -12, -9, -8, 9, 30]
+
+
 def strat_mtf(tier):
     return _shape(tier).flatmap(lambda s: st.fixed_dictionaries({
         'shape': st.just(s), 'seed': U.seeds, 'kind': st.sampled_from(['random', 'sparse', 'gauss', 'airy', 'impulse']),
         'off': st.tuples(st.integers(0, s[0] - 1), st.integers(0, s[1] - 1)).map(list),
-        'dx': st.sampled_from([1.0, 0.5, 4.4, 0.03]), 'via': st.sampled_from(['array', 'array', 'richdata'])}))
+        'dx': st.sampled_from([1.0, 0.5, 4.4, 0.03, 1e-6, 1e6]), 'via': st.sampled_from(['array', 'array', 'array-kw', 'richdata']),
+        'dtype': st.sampled_from(MTF_DT), 'layout': U.layouts, 'e64': st.sampled_from(MTF_SCALE64), 'e32': st.sampled_from(MTF_SCALE32),
+        'pre': st.sampled_from(['none', 'none', 'other-shape', 'float32', 'bright'])}))
 
 
 def _partners(n):
@@ -344,46 +554,108 @@ def _partners(n):
     return i[ok], j[ok]
 
 
+def _psf_as(p, dt, e):
+    """the non-negative float64 PSF p with peak normalised to 1, as a valid PSF of dtype dt (floats scaled by 10**e)"""
+    dt = np.dtype(dt)
+    p = p / p.max()
+    if dt.kind == 'f':
+        return (p * 10.0 ** e).astype(dt)
+    if dt.kind == 'b':
+        return p >= 0.5
+    return np.rint(p * (200 if dt.itemsize == 1 else 1000)).astype(dt)
+
+
 def check_mtf(case, ctx):
-    """MTF(0)=1, MTF<=1, MTF and OTF point-symmetric / Hermitian about n//2, OTF == MTF exp(i PTF) == explicit DFT / sum(psf)."""
+    """MTF(0)=1, MTF<=1, MTF and OTF point-symmetric / Hermitian about n//2, OTF == MTF exp(i PTF) == explicit DFT / sum(psf);
+    for PSFs of every dtype, layout and total energy; the PSF is left alone; results are independent of later calls."""
     from prysm import otf
     from prysm._richdata import RichData
     shape, dx = tuple(case['shape']), case['dx']
     ny, nx = shape
     p, off = _psf(case)
     assert p.min() >= 0 and p.sum() > 0.04
+    dt = np.dtype(case.get('dtype', 'float64'))
+    e = case.get('e64', 0) if dt == np.float64 else (case.get('e32', 0) if dt == np.float32 else 0)
+    lay, via, pre = case.get('layout', 'C'), case['via'], case.get('pre', 'none')
+    if 'dtype' in case:
+        p_in = U.relayout(_psf_as(p, dt, e), lay)
+    else:
+        p_in = p.copy()      # replays recorded before the dtype / scale dimensions existed
+    pkeep = p_in.copy()
+    p64 = _f64(p_in)
+    assert p64.min() >= 0 and p64.max() > 0
+    pn = p64 / p64.max()     # the oracle works on the peak-normalised values (the quantities under test are scale invariant)
+    f32 = dt == np.float32
     cy, cx = ny // 2, nx // 2
     ctx.nt(ny % 2 == 1 or nx % 2 == 1 or ny != nx or off != (0, 0))
-    ctx.label('parity:' + _parity(shape), 'psf:' + case['kind'], 'via:' + case['via'], 'square' if ny == nx else 'nonsquare')
-    arg = (RichData(p.copy(), dx, None),) if case['via'] == 'richdata' else (p.copy(), dx)
-    m = ctx.call(otf.mtf_from_psf, *arg)
-    ph = ctx.call(otf.ptf_from_psf, *arg)
-    ot = ctx.call(otf.otf_from_psf, *arg)
+    total = float(pn.sum()) * float(p64.max())
+    eps = float(np.finfo(dt).eps) if dt.kind == 'f' else float(np.finfo(np.float64).eps)
+    ctx.label('parity:' + _parity(shape), 'psf:' + case['kind'], 'via:' + via, 'square' if ny == nx else 'nonsquare', 'dtype:%s' % dt, 'layout:' + lay,
+              'energy:' + ('<eps' if total < eps else ('>1/eps' if total > 1 / eps else 'moderate')), 'pre:' + pre)
+    # history inside one process
+    if pre == 'other-shape':
+        ctx.call(otf.mtf_from_psf, np.ones((nx + 2, ny + 1)), dx * 2)
+    elif pre == 'float32':
+        ctx.call(otf.mtf_from_psf, np.ones(shape, np.float32), dx)
+    elif pre == 'bright':
+        ctx.call(otf.mtf_from_psf, 1e6 * (1 + _real(case['seed'], shape, 'random', 9) ** 2), dx)
+
+    def mkarg(arr):
+        if via == 'richdata':
+            return (RichData(arr, dx, None),), {}
+        if via == 'array-kw':
+            return (), {'psf': arr, 'dx': dx}
+        return (arr, dx), {}
+    a, k = mkarg(p_in)
+    m = ctx.call(otf.mtf_from_psf, *a, **k)
+    ph = ctx.call(otf.ptf_from_psf, *a, **k)
+    ot = ctx.call(otf.otf_from_psf, *a, **k)
     M, PH, OT = np.asarray(m.data), np.asarray(ph.data), np.asarray(ot.data)
-    desc = 'psf %s shape %s seed %d off %r' % (case['kind'], list(shape), case['seed'], list(off))
-    for name, a in (('mtf', M), ('ptf', PH), ('otf', OT)):
-        U.check_shape(a, shape, name + '_from_psf', desc)
+    keepM, keepPH, keepOT = M.copy(), PH.copy(), OT.copy()
+    desc = 'psf %s shape %s seed %d off %r dtype %s layout %s total energy %.3g via %s' % (case['kind'], list(shape), case['seed'], list(off), dt, lay, total, via)
+    _unchanged(ctx, p_in, pkeep, 'otf', 'the psf (%s)' % desc)
+    for name, arr in (('mtf', M), ('ptf', PH), ('otf', OT)):
+        U.check_shape(arr, shape, name + '_from_psf', desc)
     ctx.require(M.dtype.kind == 'f' and PH.dtype.kind == 'f' and OT.dtype.kind == 'c', 'otf:dtype', 'dtypes %s %s %s' % (M.dtype, PH.dtype, OT.dtype))
+    M, PH, OT = M.astype(np.float64), PH.astype(np.float64), OT.astype(np.complex128)
+    t11, t12, t13, t14 = (5e-5, 5e-5, 1e-6, 5e-5) if f32 else (1e-11, 1e-12, 1e-13, 1e-12)
     # independent reference: explicit DFT about n//2, normalised by the DC value = sum(psf)
-    F = U.ref_dft(p, 1, shape) * math.sqrt(ny * nx)
-    ctx_sum = float(p.sum())
+    F = U.ref_dft(pn, 1, shape) * math.sqrt(ny * nx)
+    ctx_sum = float(pn.sum())
     assert abs(F[cy, cx] - ctx_sum) <= 1e-9 * ctx_sum
     ref = F / ctx_sum
-    U.check_close(OT, ref, 1e-11, 'otf_from_psf:oracle', '%s: OTF vs explicit DFT/sum' % desc, atol=1e-12)
-    U.check_close(M, np.abs(ref), 1e-11, 'mtf_from_psf:oracle', '%s: MTF vs |explicit DFT|/sum' % desc, atol=1e-12)
-    ctx.require(abs(M[cy, cx] - 1) <= 1e-13, 'mtf_from_psf:dc', '%s: MTF at zero frequency [%d,%d] = %.17g' % (desc, cy, cx, M[cy, cx]))
-    ctx.require(abs(OT[cy, cx] - 1) <= 1e-13 and abs(PH[cy, cx]) <= 1e-13, 'otf_from_psf:dc', '%s: OTF(0)=%r PTF(0)=%r' % (desc, OT[cy, cx], PH[cy, cx]))
-    ctx.require(float(M.max()) <= 1 + 1e-12 and float(M.min()) >= 0, 'mtf_from_psf:range', '%s: MTF range [%.17g, %.17g]' % (desc, M.min(), M.max()))
+    sb = ':energy<eps' if total < eps else ''
+    U.check_close(OT, ref, t11, 'otf_from_psf:oracle' + sb, '%s: OTF vs explicit DFT/sum' % desc, atol=t11 * 0.1)
+    U.check_close(M, np.abs(ref), t11, 'mtf_from_psf:oracle' + sb, '%s: MTF vs |explicit DFT|/sum' % desc, atol=t11 * 0.1)
+    ctx.require(abs(M[cy, cx] - 1) <= t13, 'mtf_from_psf:dc' + sb, '%s: MTF at zero frequency [%d,%d] = %.17g' % (desc, cy, cx, M[cy, cx]))
+    ctx.require(abs(OT[cy, cx] - 1) <= t13 and abs(PH[cy, cx]) <= t13, 'otf_from_psf:dc' + sb, '%s: OTF(0)=%r PTF(0)=%r' % (desc, OT[cy, cx], PH[cy, cx]))
+    ctx.require(float(M.max()) <= 1 + t12 and float(M.min()) >= 0, 'mtf_from_psf:range', '%s: MTF range [%.17g, %.17g]' % (desc, M.min(), M.max()))
     iy, jy = _partners(ny)
     ix, jx = _partners(nx)
     ctx.tally('mirror_pairs_checked', len(iy) * len(ix))
-    U.check_close(M[np.ix_(iy, ix)], M[np.ix_(jy, jx)], 1e-12, 'mtf_from_psf:point-symmetry', '%s: MTF[c+k] vs MTF[c-k]' % desc, atol=1e-13)
-    U.check_close(OT[np.ix_(iy, ix)], np.conj(OT[np.ix_(jy, jx)]), 1e-12, 'otf_from_psf:hermitian', '%s: OTF[c+k] vs conj OTF[c-k]' % desc, atol=1e-13)
-    U.check_close(M * np.exp(1j * PH), OT, 1e-12, 'otf:consistency', '%s: MTF exp(i PTF) vs OTF' % desc, atol=1e-13)
-    ctx.require(float(np.max(np.abs(PH))) <= math.pi + 1e-12, 'ptf_from_psf:range', '%s: |PTF| max %.17g' % (desc, np.max(np.abs(PH))))
+    U.check_close(M[np.ix_(iy, ix)], M[np.ix_(jy, jx)], t14, 'mtf_from_psf:point-symmetry', '%s: MTF[c+k] vs MTF[c-k]' % desc, atol=t14 * 0.1)
+    U.check_close(OT[np.ix_(iy, ix)], np.conj(OT[np.ix_(jy, jx)]), t14, 'otf_from_psf:hermitian', '%s: OTF[c+k] vs conj OTF[c-k]' % desc, atol=t14 * 0.1)
+    U.check_close(M * np.exp(1j * PH), OT, t14, 'otf:consistency' + sb, '%s: MTF exp(i PTF) vs OTF' % desc, atol=t14 * 0.1)
+    ctx.require(float(np.max(np.abs(PH))) <= math.pi + (1e-6 if f32 else 1e-12), 'ptf_from_psf:range', '%s: |PTF| max %.17g' % (desc, np.max(np.abs(PH))))
     ctx.require(m.dx == ph.dx == ot.dx, 'otf:dx', '%s: frequency spacing differs: %r %r %r' % (desc, m.dx, ph.dx, ot.dx))
     if ny == nx:
         ctx.require(abs(m.dx - 1000 / (ny * dx)) <= 1e-12 * 1000 / (ny * dx), 'otf:dx', '%s: df=%r, expected 1000/(n dx)=%r' % (desc, m.dx, 1000 / (ny * dx)))
+    # the caller owns its results: another PSF of the same shape through the same routines, then the first results again
+    other = np.roll(pkeep, (1, 1), axis=(0, 1)) if p_in.size > 1 else pkeep.copy()
+    a2, k2 = mkarg(np.ascontiguousarray(other))
+    for fn in (otf.mtf_from_psf, otf.ptf_from_psf, otf.otf_from_psf):
+        ctx.call(fn, *a2, **k2)
+    for name, res, keep in (('mtf', m, keepM), ('ptf', ph, keepPH), ('otf', ot, keepOT)):
+        U.check_equal(np.asarray(res.data), keep, '%s_from_psf:result-overwritten' % name, '%s: the first result changed after a later call with another PSF' % desc)
+    # ... and the library keeps no reference to them: edit them in place, same call again
+    for res in (m, ph, ot):
+        np.asarray(res.data)[...] = 0
+    for name, fn, keep in (('mtf', otf.mtf_from_psf, keepM), ('ptf', otf.ptf_from_psf, keepPH), ('otf', otf.otf_from_psf, keepOT)):
+        again = np.asarray(ctx.call(fn, *a, **k).data)
+        if name == 'ptf':   # a phase of +-pi may flip its sign between evaluations only if the arithmetic differs; it does not: same code path
+            pass
+        U.check_close(again, keep, 1e-6 if f32 else 1e-12, '%s_from_psf:aliased-state' % name, '%s: same call after the first result was zeroed in place' % desc, atol=1e-7 if f32 else 1e-13)
+    _unchanged(ctx, p_in, pkeep, 'otf', 'the psf (%s)' % desc)
 
 
 CLAUSES = [
